@@ -12,3 +12,14 @@ from .net import *
 from .pub import *
 
 from ._generated import *
+
+# The star imports above also copy same-named submodule attributes of other packages
+# (e.g. the generated twins); make sure this package's own subpackages are what the
+# attributes resolve to.
+import sys as _sys
+
+map = _sys.modules[__name__ + '.map']
+net = _sys.modules[__name__ + '.net']
+pub = _sys.modules[__name__ + '.pub']
+
+del _sys
